@@ -24,6 +24,11 @@
 // rounds, unlocked with UnlockHere and re-locked with guard.TryLock(); monitor: TryLock() == OwnsLock().
 // (StickyGuard re-locked through the inherited Guard::TryLock keeps a stale `_executor`; that form is not generated.)
 //
+// `locky` = Lock() whose critical section gives its worker back once (re-queued directly, no mutex operation).
+//
+// Monitor "resumed although running / finished": the executor refuses to resume a coroutine that is not suspended
+// (that would be undefined behaviour) and reports it: a resumption too many.
+//
 // Attribution.  Trace lines are labelled with the *coroutine* that executes them, not with the fiber: the coroutine
 // body renames the running fiber after every resumption (`cN`).  When a coroutine submits itself (UnlockOn re-submits
 // the unlocking coroutine before it releases the mutex; batched Unlock re-submits it before transferring to the next
@@ -215,6 +220,16 @@ struct GateAwaiter {
   void await_resume() const noexcept {}
 };
 
+// `locky`: the critical section gives the worker back once (re-queued directly: not a mutex operation, no event)
+struct YieldAwaiter {
+  bool await_ready() const noexcept { return gExec == nullptr || gExec->workers == 0; }
+  template <typename P>
+  void await_suspend(yaclib_std::coroutine_handle<P> h) noexcept {
+    gExec->Enqueue(*static_cast<yaclib::Job*>(&static_cast<yaclib::detail::BaseCore&>(h.promise())));
+  }
+  void await_resume() const noexcept {}
+};
+
 // trace hook wrapper: a successful push CAS on `_sender` is an arrival at the gate
 void OnAtomicHook(void* c, const void* obj, int op, int so, int fo, unsigned long long a, unsigned long long e,
                   unsigned long long r, int ok) {
@@ -290,7 +305,7 @@ yaclib::Future<> Coro(const Scenario& sc, int id, yaclib::Mutex<Batching, FIFO>&
         G dying = std::move(pg);
       }
       ME();
-    } else if (r.acq == "lock" || r.acq == "lockw" || r.acq == "trylock") {
+    } else if (r.acq == "lock" || r.acq == "lockw" || r.acq == "locky" || r.acq == "trylock") {
       if (r.acq != "trylock") {
         AWAIT(m.Lock());
         ME();
@@ -303,6 +318,10 @@ yaclib::Future<> Coro(const Scenario& sc, int id, yaclib::Mutex<Batching, FIFO>&
       Enter(me);
       if (r.acq == "lockw") {
         AWAIT(GateAwaiter{});  // still inside the critical section
+        ME();
+      }
+      if (r.acq == "locky") {
+        AWAIT(YieldAwaiter{});  // still inside the critical section
         ME();
       }
       Exit(r.rel);
@@ -523,6 +542,9 @@ std::vector<Scenario> AllScenarios() {
 std::vector<Scenario> NosymScenarios() {
   std::vector<std::vector<std::vector<Round>>> progs = {
     {P({"lockw:unlock", "lock:unlock"}), P({"lock:unlock", "lock:unlock"}), P({"lock:unlock"})},
+    // the next holder suspends inside its critical section while the unlocker goes on to lock again
+    {P({"lockw:unlock"}), P({"locky:unlock", "lock:unlock"}), P({"locky:unlock", "lock:unlock"})},
+    {P({"lockw:here"}), P({"locky:unlockon", "lock:here"}), P({"locky:unlockon", "lock:here"})},
     {P({"lockw:unlockon"}), P({"lock:unlockon", "lock:unlock"}), P({"guard:gunlockon", "guard:dtor"})},
     {P({"lockw:here"}), P({"sticky:sunlock", "lock:unlock"}), P({"sticky:sunlock"})},
   };
